@@ -38,6 +38,9 @@ Qed.
 Lemma depth_abs : forall s, depth (abs s) = c_depth s.
 Proof. intros s. unfold depth, abs. cbn. apply stack_length. Qed.
 
+Definition minv (max : nat) (st : mstate) : Prop :=
+  depth st <= max /\ Forall (fun t => t <> 0) (bufs st).
+
 (* what a C function of the exception system can do, seen on the machine's state *)
 Inductive mres : Type :=
 | MRet (st : mstate) (v : option nat)
@@ -53,7 +56,8 @@ Inductive sim : cout -> mres -> Prop :=
 | sim_die : forall s st, abs s = st -> sim (CDie s) (MDie st)
 | sim_abort : sim CAbort MAbt
 | sim_wild : sim CWild MWld
-| sim_fmt : forall s st k mk, abs s = st -> (forall s1, sim (k s1) (mk (abs s1))) ->
+| sim_fmt : forall s st k mk, abs s = st ->
+            (forall s1, minv exc_max_depth (abs s1) -> sim (k s1) (mk (abs s1))) ->
             sim (CFormat s k) (MFmt st mk).
 
 (* the model's functions in that vocabulary *)
@@ -80,6 +84,21 @@ Definition m_throw (oaf : bool) (o m : nat) (st : mstate) : mres :=
   MFmt (throw_pre oaf o st)
        (fun s1 => let s2 := throw_post oaf o m s1 in of_out s2 (jump_or_die s2)).
 
+(* ------------------------------------------------------------------ the domain: the record's invariant *)
+
+(* The functions are compared on states that satisfy the invariant of the record: depth within the
+   array, and the live slots hold addresses of jump buffers (never NULL = 0).  On other states the C
+   text is undefined (out-of-bounds access, longjmp through NULL), and equivalent rewrites differ
+   there (an overflow test `>=` instead of `is`, aborts that cannot fire).  ExnProofs.mrun_inv: the
+   machine never leaves this domain. *)
+Lemma minv_c : forall max s, minv max (abs s) ->
+  c_depth s <= max /\ (1 <= c_depth s -> c_buf s (c_depth s - 1) <> 0).
+Proof.
+  intros max s (Hd & Hf). rewrite depth_abs in Hd. split; [exact Hd|].
+  intros H1. cbn [abs bufs] in Hf. destruct (c_depth s) as [|d]; [lia|].
+  rewrite stack_S in Hf. inversion Hf; subst. replace (S d - 1) with d by lia. assumption.
+Qed.
+
 (* ------------------------------------------------------------------ the proofs: case analysis + stack algebra *)
 
 Ltac norm_nat :=
@@ -90,6 +109,12 @@ Ltac norm_nat :=
   | H : (_ <=? _) = false |- _ => apply Nat.leb_gt in H
   | H : (_ <? _) = true |- _ => apply Nat.ltb_lt in H
   | H : (_ <? _) = false |- _ => apply Nat.ltb_ge in H
+  | H : orb _ _ = true |- _ => apply orb_true_iff in H; destruct H
+  | H : orb _ _ = false |- _ => apply orb_false_iff in H; destruct H
+  | H : andb _ _ = true |- _ => apply andb_true_iff in H; destruct H
+  | H : andb _ _ = false |- _ => apply andb_false_iff in H; destruct H
+  | H : negb _ = true |- _ => apply negb_true_iff in H
+  | H : negb _ = false |- _ => apply negb_false_iff in H
   end.
 
 Ltac split_ifs :=
@@ -101,7 +126,6 @@ Ltac split_ifs :=
       end
   end.
 
-(* abs (CS ..) = MS ..  by components; the stack component through stack_S / stack_push / stack_upd_above *)
 Ltac stack_eq :=
   rewrite ?Nat.add_1_r;
   repeat first
@@ -110,35 +134,42 @@ Ltac stack_eq :=
   try reflexivity;
   try (f_equal; lia).
 
-Ltac abs_eq :=
-  unfold abs; cbn [c_obj c_msg c_depth c_active c_buf];
-  f_equal; try reflexivity; try stack_eq.
+(* close a goal  sim (C outcome) (model outcome)  once every condition is decided *)
+Ltac close_sim :=
+  norm_nat; try (exfalso; lia); try discriminate; try contradiction;
+  try (constructor; unfold abs; cbn [c_obj c_msg c_depth c_active c_buf obj msg bufs active];
+       f_equal; try reflexivity; stack_eq).
 
 Lemma tie_try : forall env s,
+  minv exc_max_depth (abs s) ->
   sim (tr_exception_try env s) (m_try exc_max_depth try_keeps_obj env (abs s)).
 Proof.
-  intros env s. unfold tr_exception_try, m_try, exception_try, try_keeps_obj. cbv beta iota. rewrite depth_abs.
-  split_ifs; norm_nat; try (exfalso; lia); try constructor.
-  all: unfold abs at 1; cbn [c_obj c_msg c_depth c_active c_buf obj msg bufs active abs]; f_equal; try reflexivity; stack_eq.
+  intros env s Hinv. apply minv_c in Hinv. destruct Hinv as (Hle & Hnz).
+  unfold tr_exception_try, m_try, exception_try, try_keeps_obj. cbv beta iota. rewrite depth_abs.
+  split_ifs; close_sim.
 Qed.
 
-Lemma tie_try_end : forall s, sim (tr_exception_try_end s) (m_try_end (abs s)).
+Lemma tie_try_end : forall s,
+  minv exc_max_depth (abs s) -> sim (tr_exception_try_end s) (m_try_end (abs s)).
 Proof.
-  intros s. unfold tr_exception_try_end, m_try_end, exception_try_end.
-  cbn [abs bufs obj msg active]. destruct (c_depth s) as [|d] eqn:Hd.
-  - cbn. constructor.
-  - rewrite stack_S. split_ifs; norm_nat; try (exfalso; lia); try discriminate.
-    constructor. unfold abs; cbn [c_obj c_msg c_depth c_active c_buf]. f_equal. f_equal. lia.
+  intros s Hinv. apply minv_c in Hinv. destruct Hinv as (Hle & Hnz).
+  unfold tr_exception_try_end, m_try_end, exception_try_end.
+  change (bufs (abs s)) with (stack (c_buf s) (c_depth s)).
+  destruct (c_depth s) as [|d] eqn:Hd.
+  - cbn [stack seq rev map]. split_ifs; close_sim.
+  - rewrite stack_S. split_ifs; close_sim.
+    all: try (constructor; unfold abs; cbn [c_obj c_msg c_depth c_active c_buf]; rewrite ?Hd;
+              replace (S d - 1) with d by lia; f_equal; rewrite ?stack_upd_above by lia; reflexivity).
 Qed.
 
-Lemma tie_try_fail : forall s, sim (tr_exception_try_fail s) (m_try_fail (abs s)).
-Proof. intros s. unfold tr_exception_try_fail, m_try_fail, exception_try_fail. constructor. reflexivity. Qed.
-
-Lemma jump_target : forall s, 1 <= c_depth s ->
-  bufs (abs s) = c_buf s (c_depth s - 1) :: stack (c_buf s) (c_depth s - 1).
+(* exception_try_fail is only reached by a jump that landed in the innermost open block
+   (ExnProofs.mjump_state: the state then has a buffer on its stack) *)
+Lemma tie_try_fail : forall s,
+  minv exc_max_depth (abs s) -> 1 <= c_depth s ->
+  sim (tr_exception_try_fail s) (m_try_fail (abs s)).
 Proof.
-  intros s H. cbn [abs bufs]. destruct (c_depth s) as [|d]; [lia|].
-  rewrite stack_S. replace (S d - 1) with d by lia. reflexivity.
+  intros s Hinv H1. unfold tr_exception_try_fail, m_try_fail, exception_try_fail.
+  split_ifs; close_sim.
 Qed.
 
 Lemma c_exists_matches : forall fs k,
@@ -149,42 +180,183 @@ Proof.
   destruct (kind_of f =? kind_of k); [reflexivity | apply IH].
 Qed.
 
-Lemma tie_catch : forall fs s,
-  sim (tr_exception_catch (fun f o => kind_of f =? kind_of o) fs s)
+(* the common tail "jump to the innermost buffer, or die": whatever way the C text decides it *)
+Ltac tail_sim s :=
+  unfold jump_or_die; change (bufs (abs s)) with (stack (c_buf s) (c_depth s));
+  let d := fresh "d" in let Hd := fresh "Hd" in
+  destruct (c_depth s) as [|d] eqn:Hd;
+  [ cbn [stack seq rev map of_out]; split_ifs; norm_nat; try (exfalso; lia); try discriminate;
+    try (constructor; unfold abs; cbn [c_obj c_msg c_depth c_active c_buf obj msg active bufs]; rewrite ?Hd, ?stack_S; cbn [stack seq rev map]; congruence)
+  | rewrite stack_S; cbn [of_out]; split_ifs; norm_nat; try (exfalso; lia); try discriminate; try contradiction;
+    try (replace (S d - 1) with d in * by lia);
+    try contradiction;
+    try (constructor; unfold abs; cbn [c_obj c_msg c_depth c_active c_buf obj msg active bufs]; rewrite ?Hd, ?stack_S; cbn [stack seq rev map]; congruence) ].
+
+Lemma tie_catch : forall istuple fs s,
+  minv exc_max_depth (abs s) ->
+  sim (tr_exception_catch (fun f o => kind_of f =? kind_of o) istuple fs s)
       (m_catch clear_active_on_catch fs (abs s)).
 Proof.
-  intros fs s. unfold tr_exception_catch, m_catch, exception_catch, clear_active, clear_active_on_catch. cbv beta iota.
+  intros istuple fs s Hinv. apply minv_c in Hinv. destruct Hinv as (Hle & Hnz).
+  unfold tr_exception_catch, m_catch, exception_catch, clear_active, clear_active_on_catch. cbv beta iota.
   cbn [abs active obj].
   destruct (c_active s) eqn:Ha; cbn [negb].
   2:{ constructor. unfold abs. cbn [c_obj c_msg c_depth c_active c_buf]. now rewrite Ha. }
   destruct (c_obj s) as [k|] eqn:Ho.
-  - rewrite c_exists_matches. unfold matches. destruct fs as [|f r].
-    + cbn [length Nat.eqb]. constructor. unfold abs; cbn [c_obj c_msg c_depth c_active c_buf]. reflexivity.
+  - rewrite ?c_exists_matches. unfold matches. destruct fs as [|f r].
+    + cbn [length Nat.eqb c_exists existsb]. destruct istuple; constructor; unfold abs; cbn [c_obj c_msg c_depth c_active c_buf]; reflexivity.
     + cbn [length Nat.eqb].
       destruct (existsb (fun f0 => kind_of f0 =? kind_of k) (f :: r)) eqn:He.
-      * constructor. unfold abs; cbn [c_obj c_msg c_depth c_active c_buf]. reflexivity.
-      * unfold jump_or_die. change (bufs (abs s)) with (stack (c_buf s) (c_depth s)).
-        destruct (c_depth s) as [|d] eqn:Hd.
-        -- cbn. constructor. unfold abs; cbn [c_obj c_msg c_depth c_active c_buf]. now rewrite Hd, Ha, Ho.
-        -- rewrite stack_S. split_ifs; norm_nat; try (exfalso; lia); try discriminate.
-           cbn [of_out]. replace (S d - 1) with d by lia.
-           constructor. unfold abs; cbn [c_obj c_msg c_depth c_active c_buf]. now rewrite Hd, Ha, Ho, stack_S.
+      * destruct istuple; constructor; unfold abs; cbn [c_obj c_msg c_depth c_active c_buf]; reflexivity.
+      * destruct istuple; tail_sim s.
   - destruct fs as [|f r]; cbn [length Nat.eqb c_exists c_eq].
-    + constructor. unfold abs; cbn [c_obj c_msg c_depth c_active c_buf]. reflexivity.
-    + constructor.
+    + destruct istuple; constructor; unfold abs; cbn [c_obj c_msg c_depth c_active c_buf]; reflexivity.
+    + destruct istuple; constructor.
 Qed.
 
 Lemma tie_throw : forall o m s,
+  minv exc_max_depth (abs s) ->
   sim (tr_exception_throw (set_msg m) o s) (m_throw throw_records_obj_after_format o m (abs s)).
 Proof.
-  intros o m s. unfold tr_exception_throw, m_throw, throw_pre, throw_post, throw_records_obj_after_format. cbv beta iota.
+  intros o m s Hinv.
+  unfold tr_exception_throw, m_throw, throw_pre, throw_post, throw_records_obj_after_format. cbv beta iota.
   constructor.
   - destruct s; reflexivity.
-  - intros s1. cbn zeta. unfold jump_or_die. cbn [bufs].
+  - intros s1 Hinv1. apply minv_c in Hinv1. destruct Hinv1 as (Hle & Hnz).
+    cbn zeta. cbn [bufs].
+    match goal with |- sim _ (of_out ?s2 (jump_or_die ?s2)) =>
+      unfold jump_or_die; cbn [bufs] end.
     change (bufs (abs s1)) with (stack (c_buf s1) (c_depth s1)).
     destruct (c_depth s1) as [|d] eqn:Hd.
-    + cbn. constructor. unfold abs; cbn [c_obj c_msg c_depth c_active c_buf]. rewrite ?Hd; reflexivity.
-    + rewrite stack_S. split_ifs; norm_nat; try (exfalso; lia); try discriminate.
-      cbn [of_out]. replace (S d - 1) with d by lia.
-      constructor. unfold abs; cbn [c_obj c_msg c_depth c_active c_buf]. rewrite ?Hd, ?stack_S; reflexivity.
+    + cbn [stack seq rev map of_out]. split_ifs; norm_nat; try (exfalso; lia); try discriminate.
+      all: constructor; unfold abs; cbn [c_obj c_msg c_depth c_active c_buf obj msg active bufs]; rewrite ?Hd, ?stack_S; cbn [stack seq rev map]; congruence.
+    + rewrite stack_S. cbn [of_out]. split_ifs; norm_nat; try (exfalso; lia); try discriminate; try contradiction.
+      all: try (replace (S d - 1) with d in * by lia); try contradiction.
+      all: constructor; unfold abs; cbn [c_obj c_msg c_depth c_active c_buf obj msg active bufs]; rewrite ?Hd, ?stack_S; cbn [stack seq rev map]; congruence.
 Qed.
+
+(* ------------------------------------------------------------------ the machine stays in the domain *)
+
+Lemma minv_bufs : forall max a b, bufs b = bufs a -> minv max a -> minv max b.
+Proof. intros max a b H (Hd & Hf). unfold minv, depth in *. now rewrite H. Qed.
+
+Lemma jump_or_die_target : forall s t, jump_or_die s = MJump t -> exists b, bufs s = t :: b.
+Proof.
+  intros s t H. unfold jump_or_die in H. destruct (bufs s) as [|x b]; [discriminate|].
+  inversion H; subst. now exists b.
+Qed.
+
+Section MachineDomain.
+Variables (max : nat) (clr oaf tko : bool).
+Notation run := (mrun max clr oaf tko).
+
+Lemma catch_bufs : forall fs s s' c, exception_catch clr fs s = (s', c) -> bufs s' = bufs s.
+Proof.
+  intros fs s s' c H. unfold exception_catch, clear_active in H.
+  destruct (negb (active s)); [inversion H; reflexivity|].
+  destruct (obj s).
+  - destruct (matches fs n); inversion H; subst; destruct clr; reflexivity.
+  - destruct fs; inversion H; subst; destruct clr; reflexivity.
+Qed.
+
+(* every state the machine produces satisfies the record's invariant: the hypotheses of the tie
+   theorems hold wherever the machine applies a function *)
+Lemma mrun_inv : forall p st tr r st', minv max st -> run p st = (tr, r, st') -> minv max st'.
+Proof.
+  induction p as [ | n | p IHp q IHq | o m f IHf | b IHb fs h IHh | k0 | p IHp ];
+    intros st tr r st' Hinv Hrun; cbn [mrun] in Hrun.
+  - inversion Hrun; subst; exact Hinv.
+  - inversion Hrun; subst; exact Hinv.
+  - destruct (run p st) as [[t1 r1] s1] eqn:E1. pose proof (IHp _ _ _ _ Hinv E1) as H1.
+    destruct r1; try (inversion Hrun; subst; exact H1).
+    destruct (run q s1) as [[t2 r2] s2] eqn:E2. inversion Hrun; subst. exact (IHq _ _ _ _ H1 E2).
+  - assert (H0 : minv max (throw_pre oaf o st)) by (apply (minv_bufs max st); [unfold throw_pre; destruct oaf; reflexivity | exact Hinv]).
+    destruct (run f (throw_pre oaf o st)) as [[t1 r1] s1] eqn:E1. pose proof (IHf _ _ _ _ H0 E1) as H1.
+    destruct (fn_end r1); inversion Hrun; subst; exact H1.
+  - unfold exception_try in Hrun. destruct (depth st =? max) eqn:Hd; [inversion Hrun; subst; exact Hinv|].
+    apply Nat.eqb_neq in Hd.
+    set (s0 := MS (if tko then obj st else None) (msg st) (S (depth st) :: bufs st) false) in *.
+    assert (H0 : minv max s0).
+    { destruct Hinv as (Hle & Hf). split; [unfold depth in *; cbn; lia | constructor; [discriminate | exact Hf]]. }
+    destruct (run b s0) as [[t1 r1] s1] eqn:E1. pose proof (IHb _ _ _ _ H0 E1) as H1.
+    assert (Hpop : forall s2, minv max s2 -> forall s3, exception_try_end s2 = Some s3 -> minv max s3).
+    { intros s2 (Hle & Hf) s3 He. unfold exception_try_end in He. destruct (bufs s2) as [|x l] eqn:Hb2; [discriminate|].
+      inversion He; subst. unfold minv, depth in *. cbn. rewrite Hb2 in *. inversion Hf; subst. split; [cbn in Hle; lia | assumption]. }
+    assert (Hrest : forall s2, minv max s2 ->
+              match exception_try_end s2 with
+              | Some s3 =>
+                  match exception_catch clr fs s3 with
+                  | (s4, CNull) => (t1, MNormal, s4)
+                  | (s4, CBind k) => let '(t2, r2, s5) := run h s4 in (t1 ++ EHandler k (msg s4) (depth s4) :: t2, handler_end r2, s5)
+                  | (s4, COut r0) => (t1, r0, s4)
+                  end
+              | None => (t1, MAbort, s2)
+              end = (tr, r, st') -> minv max st').
+    { intros s2 H2 Hr. destruct (exception_try_end s2) as [s3|] eqn:He; [|inversion Hr; subst; exact H2].
+      pose proof (Hpop _ H2 _ He) as H3.
+      destruct (exception_catch clr fs s3) as [s4 c] eqn:Hc.
+      assert (H4 : minv max s4) by (apply (minv_bufs max s3); [exact (catch_bufs _ _ _ _ Hc) | exact H3]).
+      destruct c; try (inversion Hr; subst; exact H4).
+      destruct (run h s4) as [[t2 r2] s5] eqn:E2. inversion Hr; subst. exact (IHh _ _ _ _ H4 E2). }
+    destruct r1; try (inversion Hrun; subst; exact H1).
+    + exact (Hrest _ H1 Hrun).
+    + destruct (target =? S (depth st)); [|inversion Hrun; subst; exact H1].
+      apply (Hrest (exception_try_fail s1)); [|exact Hrun].
+      apply (minv_bufs max s1); [reflexivity | exact H1].
+  - inversion Hrun; subst; exact Hinv.
+  - destruct (run p st) as [[t1 r1] s1] eqn:E1. inversion Hrun; subst. exact (IHp _ _ _ _ Hinv E1).
+Qed.
+
+(* a jump in flight carries the state it was started from: its target is the innermost buffer there.
+   So exception_try_fail — reached only when a jump lands — runs with a buffer on the stack. *)
+Lemma fn_end_jump : forall r t, fn_end r = MJump t -> r = MJump t.
+Proof. intros [] t H; cbn in H; try discriminate; try exact H. destruct k; discriminate. Qed.
+Lemma handler_end_jump : forall r t, handler_end r = MJump t -> r = MJump t.
+Proof. intros [] t H; cbn in H; try discriminate; try exact H. destruct k; discriminate. Qed.
+
+Lemma mjump_state : forall p st tr t s, run p st = (tr, MJump t, s) -> exists b, bufs s = t :: b.
+Proof.
+  induction p as [ | n | p IHp q IHq | o m f IHf | b IHb fs h IHh | k0 | p IHp ];
+    intros st tr t s Hrun; cbn [mrun] in Hrun.
+  - discriminate.
+  - discriminate.
+  - destruct (run p st) as [[t1 r1] s1] eqn:E1.
+    destruct r1; try (inversion Hrun; subst; eapply IHp; eassumption); try discriminate.
+    destruct (run q s1) as [[t2 r2] s2] eqn:E2. inversion Hrun; subst. eapply IHq; eassumption.
+  - destruct (run f (throw_pre oaf o st)) as [[t1 r1] s1] eqn:E1.
+    destruct (fn_end r1) eqn:Hf; inversion Hrun; subst.
+    + eapply jump_or_die_target; eassumption.
+    + apply fn_end_jump in Hf. subst. eapply IHf; eassumption.
+  - destruct (exception_try max tko (S (depth st)) st) as [s0|]; [|discriminate].
+    destruct (run b s0) as [[t1 r1] s1] eqn:E1.
+    assert (Hrest : forall s2,
+              match exception_try_end s2 with
+              | Some s3 =>
+                  match exception_catch clr fs s3 with
+                  | (s4, CNull) => (t1, MNormal, s4)
+                  | (s4, CBind k) => let '(t2, r2, s5) := run h s4 in (t1 ++ EHandler k (msg s4) (depth s4) :: t2, handler_end r2, s5)
+                  | (s4, COut r0) => (t1, r0, s4)
+                  end
+              | None => (t1, MAbort, s2)
+              end = (tr, MJump t, s) -> exists b0, bufs s = t :: b0).
+    { intros s2 Hr. destruct (exception_try_end s2) as [s3|]; [|discriminate].
+      unfold exception_catch in Hr.
+      destruct (negb (active s3)); [discriminate|].
+      destruct (obj s3) as [k|].
+      - destruct (matches fs k).
+        + destruct (run h (clear_active clr s3)) as [[t2 r2] s5] eqn:E2. inversion Hr; subst.
+          match goal with H : handler_end _ = MJump _ |- _ => apply handler_end_jump in H; subst end.
+          eapply IHh; eassumption.
+        + inversion Hr; subst. eapply jump_or_die_target; eassumption.
+      - destruct fs; discriminate. }
+    destruct r1; try discriminate; try (inversion Hrun; subst; eapply IHb; eassumption).
+    + exact (Hrest _ Hrun).
+    + destruct (target =? S (depth st)); [exact (Hrest _ Hrun)|].
+      inversion Hrun; subst. eapply IHb; eassumption.
+  - discriminate.
+  - destruct (run p st) as [[t1 r1] s1] eqn:E1. inversion Hrun; subst.
+    match goal with H : fn_end _ = MJump _ |- _ => apply fn_end_jump in H; subst end.
+    eapply IHp; eassumption.
+Qed.
+
+End MachineDomain.
